@@ -1,11 +1,12 @@
 (** Extraction of the executable models.  ExtrOcamlBasic only: bool, option, unit, list, prod,
     sumbool are mapped to OCaml's; N / positive / nat stay Coq datatypes.  No Extract Constant. *)
 From Coq Require Import Extraction ExtrOcamlBasic NArith DecimalN.
-From Astria Require Import Bundle.BundleModel Merkle.MerkleModel Quorum.QuorumModel Quorum.PipelineModel Oracle.OracleModel Decode.DecodeModel Relayer.BatchModel Relayer.SubmissionModel Relayer.CrashModel Conductor.ConductorModel Mempool.MempoolModel Ledger.LedgerModel Validators.ValidatorsModel Abci.AbciModel Ics20.Ics20Model Proposal.ProposalModel Proposal.ProposalLedger.
+From Astria Require Import Bundle.BundleModel Merkle.MerkleModel Quorum.QuorumModel Quorum.PipelineModel Oracle.OracleModel Decode.DecodeModel Relayer.BatchModel Relayer.SubmissionModel Relayer.CrashModel Conductor.ConductorModel Mempool.MempoolModel Ledger.LedgerModel Validators.ValidatorsModel Abci.AbciModel Ics20.Ics20Model Proposal.ProposalModel Proposal.ProposalLedger BlockData.BlockDataModel.
 Separate Extraction N.of_uint N.to_uint BundleModel.run BundleModel.init
   MerkleModel QuorumModel PipelineModel OracleModel
   Z.of_N Z.opp Z.abs_N N.succ
   N.sub N.ltb DecodeModel ConductorModel
   BatchModel SubmissionModel CrashModel MempoolModel
   LedgerModel ValidatorsModel AbciModel Ics20Model
-  N.leb ProposalModel ProposalLedger.
+  N.leb ProposalModel ProposalLedger BlockDataModel
+  N.of_nat.
